@@ -21,10 +21,10 @@ _COMMON_NOTE = ('ASSUMED (never counted as proved, listed in evidence.trusted_ba
                 'BOUNDED stand-ins (exhaustive small scope + seeded random on the real code, evidence.bounded_standins): '
                 'gen_token_ordering_for_tables, order_using_token_ordering, PositionIndex.build, PositionFilter.find_candidates; '
                 'the lemma inj_image (injective ranks preserve intersection sizes) and two counting facts are assumed mathematics. '
-                'Scope: Jaccard / cosine / Dice joins (set_sim_join and the three *_join_py drivers), overlap_join_py with '
-                'InvertedIndex / OverlapFilter, SizeIndex / SizeFilter, Filter.filter_candset, apply_matcher. The overlap-coefficient '
-                'and edit-distance joins and the Prefix / Position / Suffix filter classes are not under contract (their part of the '
-                'property is not decided by this check). Row-level equality of the parallel (n_jobs > 1) result with the serial one '
+                'Scope: all six *_join_py entry points (Jaccard / cosine / Dice through set_sim_join; overlap; overlap coefficient; edit '
+                'distance) with InvertedIndex / OverlapFilter, SizeIndex / SizeFilter, PrefixIndex / PrefixFilter.find_candidates, '
+                'Filter.filter_candset, apply_matcher. filter_pair / filter_tables of PrefixFilter, PositionFilter and SuffixFilter are '
+                'not under contract (their part of the property is not decided by this check). Row-level equality of the parallel (n_jobs > 1) result with the serial one '
                 'is not derived. Cython twins are out of reach. Trusted: pyvc VC generator, z3/cvc5.')
 
 CLAIMS.update({
@@ -115,9 +115,24 @@ CLAIMS.update({
         technique=TECH + '; window tightness: bounded exhaustive check', design_ref='DESIGN.md 4 (C14)'),
 })
 
-_PENDING = 'check not registered yet in this session (contracts under construction); not claimed'
-NOT_APPLICABLE = dict((p, _PENDING) for p in
-                      ['C03', 'C07', 'C13'])
+CLAIMS['C03'] = dict(
+    text='_edit_distance_join_split is proved to return only pairs whose Levenshtein distance (an uninterpreted function, the value '
+         'py_stringmatching returns) satisfies <=, < or = against the threshold, each pair at most once (candidates form a set; ghost origin '
+         'maps), with _sim_score the distance and cells projected from the source rows; and to return every pair that passes the length '
+         'filter, satisfies the comparison and is a prefix-filter candidate. PrefixIndex.build and PrefixFilter.find_candidates are proved '
+         'exact (candidates = rows sharing a token within the two (q*t+1)-prefixes). edit_distance_join_py is proved to validate, to floor '
+         'the threshold, to switch the tokenizer to bag mode and restore it on every exit, and to relay the rows.',
+    note=_COMMON_NOTE + ' The documented completeness guarantee (every qualifying pair sharing a q-gram) is derived from the proved '
+         'candidate completeness plus two ASSUMED facts of pure mathematics (length bound of the edit distance; q-gram prefix principle), '
+         'listed in the evidence; gen_token_ordering_for_tables / order_using_token_ordering are bounded stand-ins.',
+    technique=TECH, design_ref='DESIGN.md 4 (C03)')
+
+_REL = ('relational property over several runs (the join against filter_tables + apply_matcher; swapped tables; two thresholds; three '
+        'operators): the single-call contracts built here characterise each result only up to the gap between `must` (raw and rounded '
+        'similarity satisfy the comparison) and `may` (rounded similarity does), and the candidate set of the position filter is a bounded '
+        'stand-in, so equality of two results cannot be derived as a lemma over these contracts; no check is registered rather than '
+        'switching to differential testing (DESIGN.md 5)')
+NOT_APPLICABLE = dict((p, _REL) for p in ['C07', 'C13'])
 NOT_APPLICABLE['C16'] = ('converter.py is a dtype dispatch whose whole observable behaviour is pandas semantics '
                          '(astype(str), Series.update, copy); a contract proof would consist of assumed pandas contracts only '
                          'and cannot decide the property (DESIGN.md 5)')
